@@ -475,7 +475,7 @@ Definition del_client (pe : peer) (a : faddr) : option N :=
 
 Definition ent_list (a : option (list N)) : list N := match a with Some l => l | None => [] end.
 
-(* SubscriptionManager.RemoveSubscription *)
+(* SubscriptionManager.RemoveSubscription (entries of the calling connection only: fix c14f34e) *)
 Definition remove_subscription (fx : bool) (s : st) (pe : peer) (r : regdel) : res (st * bool) :=
   match rd_cli r with
   | None => guard fx S_REMSUB (Ok (s, true))
@@ -487,7 +487,7 @@ Definition remove_subscription (fx : bool) (s : st) (pe : peer) (r : regdel) : r
           match srv with
           | None => Ok (s, true)
           | Some lf =>
-              let keep := filter (fun x => negb (same_cli x (del_client pe ca) (ent_list (fa_ent ca)) (rf_id rf) && same_srv x lf)) (subs s) in
+              let keep := filter (fun x => negb (N.eqb (e_ski x) (p_ski pe) && same_cli x (del_client pe ca) (ent_list (fa_ent ca)) (rf_id rf) && same_srv x lf)) (subs s) in
               if Nat.eqb (length keep) (length (subs s)) then Ok (s, true)
               else Ok (set_subs s keep, false)
           end
@@ -519,7 +519,7 @@ Definition add_binding (fx : bool) (s : st) (pe : peer) (r : regreq) : res (st *
 Definition has_binding (s : st) (lf : lfeat) (en : rent) (rf : rfeat) : bool :=
   existsb (fun x => same_srv x lf && same_cli x (rf_dev rf) (re_addr en) (rf_id rf)) (binds s).
 
-(* BindingManager.RemoveBinding *)
+(* BindingManager.RemoveBinding (entries of the calling connection only: fix c14f34e) *)
 Definition remove_binding (fx : bool) (s : st) (pe : peer) (r : regdel) : res (st * bool) :=
   match rd_cli r with
   | None => guard fx S_REMBIND (Ok (s, true))
@@ -533,7 +533,7 @@ Definition remove_binding (fx : bool) (s : st) (pe : peer) (r : regdel) : res (s
           | Some lf =>
               if negb (eqb_role (lf_role lf) RSpecial || eqb_role (lf_role lf) RServer) then Ok (s, true) else
               if negb (has_binding s lf en rf) then Ok (s, true) else
-              let keep := filter (fun x => negb (same_cli x (del_client pe ca) (ent_list (fa_ent ca)) (rf_id rf) && same_srv x lf)) (binds s) in
+              let keep := filter (fun x => negb (N.eqb (e_ski x) (p_ski pe) && same_cli x (del_client pe ca) (ent_list (fa_ent ca)) (rf_id rf) && same_srv x lf)) (binds s) in
               if Nat.eqb (length keep) (length (binds s)) then Ok (s, true)
               else Ok (set_binds s keep, false)
           end
